@@ -756,3 +756,9 @@ def run(ctx, R):
     r115(ctx, R)
     r116(ctx, R)
     r117(ctx, R)
+    # R11.8: a write that does not mention a consumer attribute leaves the
+    # stored one alone (the update_consumers conditions of R12.7): otherwise
+    # a read reports a project / user / consumer type no write asked for
+    from psa.rules import c12
+    n8 = C.reuse_obligations(ctx, R, c12.r127, 'R11.8')
+    R.count('R11.8', n8, 2)
